@@ -8,14 +8,27 @@ import (
 )
 
 // VerifReset re-creates the package-global dispatcher (one per execution).
+//
+// The dispatcher is rebuilt the way the package's own init() built it: the capacity of the wake channel is
+// taken from the instance init() created (scaled with the pool limit when init() tied it to the limit), so a
+// change of init() is not papered over by this hook.
 func VerifReset(maxWorkers int, idle time.Duration) {
+	if initWakeCap < 0 {
+		initWakeCap, initMaxWorkers = cap(cc.wakeCh), cc.maxWorkers
+	}
+	wakeCap := initWakeCap
+	if initWakeCap == initMaxWorkers {
+		wakeCap = maxWorkers
+	}
 	cc = new(callControl)
 	cc.futures = &futures{}
 	cc.maxWorkers = maxWorkers
-	cc.wakeCh = make(chan bool, cc.maxWorkers)
+	cc.wakeCh = make(chan bool, wakeCap)
 	cc.idleTimeout = idle
 	heap.Init(cc.futures)
 }
+
+var initWakeCap, initMaxWorkers = -1, 0
 
 // VerifState is a read-only view: number of watchers, heap length, and whether
 // every queued future knows its own heap index. Call only at quiescence or
